@@ -292,7 +292,11 @@ class C18(fw.Check):
             'generated project trees (nested packages, custom module names, data files, __pycache__, *.dist-info, stale '
             'root and nested __4ml__.py) packed as zip and as directory, installed, components compared by planted '
             'tokens.  keys: ASCII texts over digits/sign/underscore/space/letters for Generation.Key, random key sets '
-            'for listings, random PEP 440 pairs for ordering vs the model, packaging and an independent PEP 440 key.')
+            'for listings, random PEP 440 pairs for ordering vs the model, packaging and an independent PEP 440 key; random '
+            'registry contents (0..6 releases x 0..5 generations, repeats, shuffled) for the implicit "latest" key.  '
+            'Compared with the model: behaviour the property talks about (does the value read back, key acceptance on ASCII '
+            'text, listing content, order, normalised version text); differences in incidental mechanism (text written, '
+            'archive members, install mode) are counted under mechanism_drift and never alarm.')
     TRUSTED = [
         'toml 0.10.2 line/section structure, float/int/date/datetime text forms, uuid text form, utf-8 (opaque tokens in '
         'the model; only key presence, value kind and the basic-string escaping of string ordinals are modelled)',
@@ -426,6 +430,8 @@ class C18(fw.Check):
 
     def _oracle_tag(self, c: dict, res: dict):
         """Property text: a tag reads back equal to what was written (all fields, exact types). -> None | (what, sig)"""
+        if (c['ordinal'] is not None and c['train_ts'] is None) or (c['score'] is not None and c['tune_ts'] is None):
+            return None  # not a tag reachable through the lifecycle (a mode without timestamp is empty): nothing is demanded
         if res['built'] != c:
             return (f'Tag setters did not produce the requested tag: {res["built"]}', 'tag-lifecycle-setters')
         if res['dump'][0] == 'error':
@@ -516,33 +522,52 @@ class C18(fw.Check):
             if i in answers:
                 self._compare_tag(c, res, sexp.loads(answers[i]), kind, region)
 
+    def _drift(self, what: str, case, impl, model):
+        """The real code and the model differ in *incidental mechanism* (text written, member order, install mode)
+        while nothing the property talks about is affected on this case: counted and reported in the evidence,
+        never an alarm (a harmless refactoring of forml must stay quiet)."""
+        d = self.extra.setdefault('mechanism_drift', {})
+        if what not in d:
+            d[what] = {'count': 0, 'first': {'case': case, 'impl': impl, 'model': model}}
+        d[what]['count'] += 1
+
     def _compare_tag(self, c, res, m, kind, region):
+        """Behaviour the property talks about = does the tag read back equal.  The model predicting a round trip that
+        the real code does not deliver is a divergence (and the oracle has reported the failing tag); the real code
+        doing better than the model, or failing in another shape inside a region where both fail, is drift."""
         if m == 'bad-op':
             raise fw.MachineryError(f'model rejected {c}')
+        impl_ok = res['dump'][0] == 'ok' and res.get('load') == ('ok', c)
         if m[0] == 'error':
-            if res['dump'] != ('error', m[1]):
-                self.diverge('Tag.dumps outcome', c, res['dump'], m)
+            model_ok, mview = False, m
+        else:
+            mload = m[4]
+            model_ok = mload[0] == 'ok' and unsx_tag(mload[1]) == c
+            mview = mload
+        if model_ok and not impl_ok:
+            self.diverge('Tag.loads(Tag.dumps(t)): the model reads the tag back, the implementation does not', c,
+                         res.get('load', res['dump']), 'ok')
             return
-        if res['dump'][0] != 'ok':
-            self.diverge('Tag.dumps outcome', c, res['dump'], m[:4])
+        if impl_ok and not model_ok:
+            self._drift('tag round-trips in the implementation but not in the model (model pessimistic)', c, 'ok', mview)
             return
+        if not impl_ok:  # both fail: the shape of the failure is incidental (same region, reported by the oracle)
+            if m[0] == 'error':
+                same = res['dump'] == ('error', m[1])
+            elif m[4][0] == 'error':
+                same = res.get('load') == ('error', m[4][1])
+            else:
+                same = res.get('load') == ('ok', unsx_tag(m[4][1]))
+            if not same and region not in (' x-escape', ' u-escape'):
+                self._drift('tag fails to round-trip in both, in different ways', c, res.get('load', res['dump']), mview)
+            return
+        # both round-trip: what was written (mechanism; informational)
         keys, lit = self._toml_shape(res['dump'][1])
         mlit = None if m[3] == 'none' else uncps(sexp.num(m[3]))
-        if keys['training'] != m[1] or keys['tuning'] != m[2] or keys[''] != ['states']:
-            self.diverge('keys written by Tag.dumps', c, keys, [m[1], m[2]])
+        if sorted(keys['training']) != sorted(m[1]) or sorted(keys['tuning']) != sorted(m[2]):
+            self._drift('keys written by Tag.dumps', c, keys, [m[1], m[2]])
         if kind == 'str' and lit != mlit:
-            self.diverge('TOML literal of a string ordinal', c, lit, mlit)
-        # what comes back: compared where the reader is modelled (outside the writer's \x region and \u escapes)
-        if region in (' x-escape', ' u-escape'):
-            return
-        mload = m[4]
-        if mload[0] == 'error':
-            if res['load'] != ('error', mload[1]):
-                self.diverge('Tag.loads outcome', c, res['load'], mload)
-        else:
-            mt = unsx_tag(mload[1])
-            if res['load'] != ('ok', mt):
-                self.diverge('Tag.loads result', c, res['load'], mt)
+            self._drift('TOML literal of a string ordinal', c, lit, mlit)
 
     # ---- keys -----------------------------------------------------------------------------------------
     def _genkeys(self):
@@ -574,7 +599,12 @@ class C18(fw.Check):
             m = sexp.num(sexp.loads(ans))
             self.case(('genkey', t), f'genkey -> {impl[0] if impl[0] == "ok" else impl[1]}', nontrivial=len(t) > 1)
             if impl != m:
-                self.diverge('Generation.Key acceptance', {'text': t}, impl, m)
+                # the model covers ASCII text with `int()`'s ASCII white space; what other control / non-ASCII characters
+                # count as strippable white space is not something the property speaks about
+                if all(32 <= ord(ch) < 127 or ch in '\t\n\x0b\x0c\r' for ch in t):
+                    self.diverge('Generation.Key acceptance', {'text': t}, impl, m)
+                else:
+                    self._drift('Generation.Key acceptance of text with exotic control characters', {'text': t}, impl, m)
             v = self._oracle_genkey(t, impl)
             if v:
                 self.violate(v[0], {'kind': 'genkey', 'text': t}, v[1])
@@ -634,7 +664,8 @@ class C18(fw.Check):
                 self.diverge('Listing of generation keys', s, [impl, last], m)
             spec = sorted(set(s))
             if impl != spec or last != (spec[-1] if spec else 'Empty') or (spec and (int(lst.last.next) in s)):
-                self.violate(f'Listing({s}) = {impl}, last = {last}', {'kind': 'listing', 'keys': s}, 'listing-generation')
+                v = self._shrink_keys({'kind': 'listing', 'keys': s})
+                self.violate(v.what, v.witness, v.signature)
 
     VERSION_CORPUS = ['0', '1', '1.0', '1.0.0', '01.02', 'v1.0', ' 1.0 ', '1.0-1', '1.0.post1', '1.0a', '1.0alpha1', '1.0-rc.1', '1.0c1',
                       '1.0-preview3', '1.0_r4', '1.0+abc.1', '1.0+ABC-1', '1.0+a_b', '1!1', '1!0.5', '1.0.dev', '1.0.dev1', '1.0a1.dev1',
@@ -729,29 +760,57 @@ class C18(fw.Check):
                 self.diverge('Listing of release keys', [t for t, _, _ in s], [str(k) for k in lst], m)
             spec = sorted({k for _, _, k in s})
             if impl_keys != spec or last != (spec[-1] if spec else 'Empty'):
-                self.violate(f'Listing({[t for t, _, _ in s]}) = {[str(k) for k in lst]}', {'kind': 'vlisting', 'keys': [t for t, _, _ in s]},
-                             'listing-release')
+                w = {'kind': 'vlisting', 'keys': [t for t, _, _ in s]}
+                v = self._shrink_keys(w) if self._replay_keys(w) else fw.Violation(f'Listing({w["keys"]}) = {[str(k) for k in lst]}', w, 'listing-release')
+                self.violate(v.what, v.witness, v.signature)
         # Level.key: implicit key = last of the parent's listing; unknown explicit keys are refused
         self._level_keys()
 
     def _level_keys(self):
+        """`Level.key`: an implicit key is the maximum of the parent's listing ("latest"); an empty listing has no latest.
+        Random registry contents through the public Directory API."""
+        r = self.rng
+        fixed = {'1.0': [1, 2, 7], '1.10': [3], '1.9': [], '1.10.dev1': [9]}
+        contents = [fixed]
+        pool = ['0.1', '0.9', '0.10', '1', '1.0.1', '1.9', '1.10', '2.0a1', '2.0rc1', '2.0', '2.0.post1', '2.0.dev3', '1!0.1', '10', '9']
+        for _ in range(self.n(40, 400)):
+            rels = r.sample(pool, r.randint(0, 6))
+            contents.append({rel: r.sample(range(1, 40), r.choice([0, 1, 2, 5])) for rel in rels})
+        for content in contents:
+            listed = {rel: list(gens) + ([gens[0]] if gens and r.random() < 0.3 else []) for rel, gens in content.items()}
+            shuffled = dict(r.sample(sorted(listed.items()), len(listed)))
+            self.case(('level-key', json.dumps(shuffled, sort_keys=True)), f'level key releases={len(content)}', nontrivial=len(content) > 1)
+            for what, sig in self._level_key_case(shuffled):
+                self.violate(what, {'kind': 'level-key', 'content': shuffled}, sig)
+
+    @staticmethod
+    def _level_key_case(content: dict) -> list:
+        """content: {release text: [generation numbers]} as the registry lists them (any order, repeats allowed)"""
         from forml.io import asset
         from props.c17 import _registry_double
 
-        Double = _registry_double()
-        directory = asset.Directory(Double({'p': {'1.0': [1, 2, 7], '1.10': [3], '1.9': [], '1.10.dev1': [9]}}))
-        proj = directory.get('p')
-        got = (str(proj.get().key), int(proj.get('1.0').get().key), int(proj.get().get().key))
-        self.case('level-key', 'level key', nontrivial=True)
-        if got != ('1.10', 7, 3):
-            self.violate(f'implicit level keys resolved to {got}, expected the listing maxima (1.10, 7, 3)', {'kind': 'level-key'}, 'level-implicit-key')
-        for rel, gen in (('2.0', None), ('1.0', 5)):
+        out = []
+        proj = asset.Directory(_registry_double()({'p': content})).get('p')
+        want_rel = max(content, key=pep440_key) if content else None
+        try:
+            got_rel = str(proj.get().key)
+        except asset.Level.Listing.Empty:
+            got_rel = None
+        except Exception as e:  # pylint: disable=broad-except
+            got_rel = f'{type(e).__name__}: {e}'
+        if got_rel != want_rel:
+            return [(f'latest release of {sorted(content)} resolved to {got_rel}, the PEP 440 maximum is {want_rel}', 'level-implicit-key')]
+        for rel, gens in content.items():
+            want = max(gens) if gens else None
             try:
-                lvl = proj.get(rel) if gen is None else proj.get(rel).get(gen)
-                _ = lvl.key
-                self.violate(f'unlisted key {rel}/{gen} accepted', {'kind': 'level-key', 'rel': rel, 'gen': gen}, 'level-unlisted-key')
-            except asset.Level.Invalid:
-                pass
+                got = int(proj.get(rel).get().key)
+            except asset.Level.Listing.Empty:
+                got = None
+            except Exception as e:  # pylint: disable=broad-except
+                got = f'{type(e).__name__}: {e}'
+            if got != want:
+                out.append((f'latest generation of release {rel} with generations {gens} resolved to {got}, the maximum is {want}', 'level-implicit-key'))
+        return out
 
     # ---- manifests ------------------------------------------------------------------------------------
     IDENT_START = 'abcdefgxyzABC_'
@@ -807,7 +866,7 @@ class C18(fw.Check):
         return (back == m and type(back.name) is type(m.name) and str(back.name) == str(m.name)
                 and back.version == m.version and str(back.version) == str(m.version)
                 and type(back.package) is str and back.package == m.package
-                and dict(back.modules) == dict(m.modules) and list(back.modules) == list(m.modules)
+                and dict(back.modules) == dict(m.modules)  # a mapping: the order of the entries is not part of equality
                 and all(type(v) is str for v in back.modules.values()))
 
     def _manifests(self):
@@ -830,17 +889,23 @@ class C18(fw.Check):
                       f'manifest modules={len(modules)}{" non-bmp" if astral else ""}', nontrivial=bool(modules),
                       sample={'manifest': [name, version, package, modules], 'text': text} if len(modules) == 2 and r.random() < 0.05 else None)
             mm = sexp.loads(ans)
-            if uncps(sexp.num(mm[0])) != text:
-                self.diverge('manifest module text', list(c), text, uncps(sexp.num(mm[0])))
+            written = [name, str(m.version), package, [[k, v] for k, v in modules.items()]]
+            impl_ok = back[0] == 'ok' and self._manifest_equal(m, back[1])
+            mback = None
             if mm[1][0] == 'ok':
                 mback = [uncps(sexp.num(mm[1][1])), uncps(sexp.num(mm[1][2])), uncps(sexp.num(mm[1][3])),
                          [[uncps(sexp.num(k)), uncps(sexp.num(v))] for k, v in mm[1][4]]]
-                iback = back if back[0] == 'error' else [str(back[1].name), str(back[1].version), back[1].package,
-                                                         [[k, v] for k, v in back[1].modules.items()]]
-                if iback != mback:
-                    self.diverge('Manifest.read result', list(c), iback, mback)
-            elif mm[1][1] == 'syntax' and back != ('error', 'SyntaxError'):
-                self.diverge('Manifest.read outcome', list(c), back, mm[1])
+            model_ok = mback == written
+            iback = back if back[0] == 'error' else [str(back[1].name), str(back[1].version), back[1].package,
+                                                     [[k, v] for k, v in back[1].modules.items()]]
+            if model_ok and not impl_ok:
+                self.diverge('Manifest.read(Manifest.write(m)): the model reads the manifest back, the implementation does not', list(c), iback, 'ok')
+            elif impl_ok and not model_ok:
+                self._drift('manifest round-trips in the implementation but not in the model (model pessimistic)', list(c), 'ok', mm[1])
+            elif not impl_ok and iback != (mback if mback is not None else ('error', 'SyntaxError')) and mm[1][1:] != ['out-of-model']:
+                self._drift('manifest fails to round-trip in both, in different ways', list(c), iback, mm[1])
+            elif uncps(sexp.num(mm[0])) != text:
+                self._drift('manifest module text', list(c), text, uncps(sexp.num(mm[0])))
             # oracle: the manifest reads back equal to what was written
             if back[0] == 'error' or not self._manifest_equal(m, back[1]):
                 got = back[1] if back[0] == 'error' else [str(back[1].name), str(back[1].version), back[1].package, dict(back[1].modules)]
@@ -854,18 +919,15 @@ class C18(fw.Check):
                     if self._replay_manifest(w) is None:
                         w = {'kind': 'manifest', 'name': name, 'version': version, 'package': package, 'modules': modules}
                 self.violate(f'Manifest({name!r}, {version!r}, {package!r}, **{modules!r}) reads back as {got}', w, sig)
-        # names outside the legal alphabet: characterised, model vs implementation only (no oracle demand)
+        # names outside the legal alphabet: characterised in the model (C18_manifest_illegal_name); no demand on the code
         for name in ['fo"o', 'fo\\\\o', 'fo\\qo', 'a\\nb', 'x\\', 'tab\\there', 'a\\"b', 'q\\u0041']:
             m, text, back = self._impl_manifest(name, '1', 'a', {})
             mm = sexp.loads(self.model([sexp.dumps(['manifest', cps(name), cps('1'), cps('a'), []])])[0])
             self.case(('manifest-illegal', name), 'manifest illegal name', nontrivial=False)
-            if uncps(sexp.num(mm[0])) != text:
-                self.diverge('manifest module text', name, text, uncps(sexp.num(mm[0])))
-            if mm[1][0] == 'ok':
-                if back[0] != 'ok' or str(back[1].name) != uncps(sexp.num(mm[1][1])):
-                    self.diverge('Manifest.read of an illegal name', name, back[0] if back[0] == 'error' else str(back[1].name), mm[1])
-            elif mm[1][1] == 'syntax' and back != ('error', 'SyntaxError'):
-                self.diverge('Manifest.read of an illegal name', name, back, mm[1])
+            iname = back if back[0] == 'error' else str(back[1].name)
+            mname = uncps(sexp.num(mm[1][1])) if mm[1][0] == 'ok' else ('error', 'SyntaxError' if mm[1][1] == 'syntax' else mm[1][1])
+            if iname != mname or uncps(sexp.num(mm[0])) != text:
+                self._drift('Manifest write/read of a name outside the legal alphabet', name, iname, mname)
 
     def _replay_manifest(self, w):
         m, _, back = self._impl_manifest(w['name'], w['version'], w['package'], w['modules'])
@@ -967,12 +1029,56 @@ class C18(fw.Check):
                 return False
         return True
 
-    def _packages(self):
+    def _package_case(self, work: pathlib.Path, tree: dict, margs, tokens: dict, mode: str, mm=None) -> list:
+        """Create (zip) / assemble (dir) the package of `tree`, install it, load the components -> [(what, signature)]."""
         from forml.project import _distribution as dist
 
+        out = []
+        mods0 = set(sys.modules)
+        src = work / 'src'
+        if not src.exists():
+            self._materialise(tree, src)
+        manifest = dist.Manifest(margs[0], margs[1], margs[2], **margs[3])
+        try:
+            if mode == 'zip':
+                pkg = dist.Package.create(src, manifest, work / f'{margs[0]}.4ml')
+                names = zipfile.ZipFile(pkg.path).namelist()
+                if mm is not None and sorted(names) != sorted(mm[0]):
+                    self._drift('archive members of Package.create', self._tree_files(tree), sorted(names), sorted(mm[0]))
+            else:
+                manifest.write(src)  # a directory based package is the tree with its manifest
+                pkg = dist.Package(src)
+            target = work / 'inst' / mode / margs[0]
+            artifact = pkg.install(target)
+            got = self._tokens_of(artifact.components)
+            installed = dist.Manifest.read(target)
+            if mm is not None and mode == 'zip' and target.is_file() != (mm[1] == 'true'):
+                self._drift('zip-safe decision of Package.install', self._tree_files(tree), target.is_file(), mm[1])
+            # idempotent re-install must keep the content
+            again = self._tokens_of(pkg.install(target).components)
+        except Exception as e:  # pylint: disable=broad-except
+            return [(f'{mode}-based package of {manifest} could not be created/installed/loaded: {type(e).__name__}: {e}',
+                     f'package-{mode}-raises-{type(e).__name__}')]
+        finally:
+            sys.path[:] = [p for p in sys.path if not str(p).startswith(str(work))]
+            for name in set(sys.modules) - mods0:
+                if name.split('.')[0].startswith('c18p') or name == '__4ml__':
+                    del sys.modules[name]
+            importlib.invalidate_caches()
+        if not self._manifest_equal(manifest, pkg.manifest) or not self._manifest_equal(manifest, installed):
+            out.append((f'{mode}-based package manifest {manifest} reads back as {tuple(pkg.manifest)} / installed {tuple(installed)}',
+                        f'package-{mode}-manifest'))
+        if not self._tokens_match(got, tokens) or not self._tokens_match(again, tokens):
+            out.append((f'{mode}-based package of {manifest} (modules {margs[3]}) installs components {got}, written {tokens}',
+                        f'package-{mode}-components'))
+        if (artifact.package, dict(artifact.modules)) != (margs[2], margs[3]):
+            out.append((f'artifact of {manifest} has package/modules {artifact.package}/{dict(artifact.modules)}', f'package-{mode}-artifact'))
+        return out
+
+    def _packages(self):
         n = self.n(20, 400)
         base = pathlib.Path(tempfile.mkdtemp(prefix='verif-c18-p-'))
-        path0, mods0 = list(sys.path), set(sys.modules)
+        path0 = list(sys.path)
         try:
             projects = [self._gen_project(i) for i in range(n)]
             answers = self.model([sexp.dumps(['package', self._tree_sexp(t)]) for t, _, _ in projects])
@@ -980,53 +1086,114 @@ class C18(fw.Check):
                 if pep440_key(margs[1]) is None:
                     continue
                 mm = sexp.loads(ans)
-                work = base / str(i)
-                src = work / 'src'
-                self._materialise(tree, src)
-                manifest = dist.Manifest(margs[0], margs[1], margs[2], **margs[3])
                 for mode in ('zip', 'dir'):
                     w = {'kind': 'package', 'mode': mode, 'tree': tree, 'manifest': [margs[0], margs[1], margs[2], margs[3]], 'tokens': tokens}
                     self.case(('package', mode, i, json.dumps(tree, sort_keys=True)), f'package {mode} modules={len(margs[3])} eval={"y" if tokens["evaluation"] else "n"}',
-                              nontrivial=True, sample={'mode': mode, 'files': self._tree_files(tree), 'manifest': str(manifest), 'modules': margs[3]} if i < 2 else None)
-                    try:
-                        if mode == 'zip':
-                            pkg = dist.Package.create(src, manifest, work / f'{margs[0]}.4ml')
-                            names = zipfile.ZipFile(pkg.path).namelist()
-                            mnames = mm[0]
-                            if sorted(names) != sorted(mnames) or names[0] != mnames[0]:
-                                self.diverge('archive members of Package.create', self._tree_files(tree), sorted(names), sorted(mnames))
-                        else:
-                            manifest.write(src)  # a directory based package is the tree with its manifest
-                            pkg = dist.Package(src)
-                        target = work / 'inst' / mode / margs[0]
-                        artifact = pkg.install(target)
-                        got = self._tokens_of(artifact.components)
-                        installed = dist.Manifest.read(target)
-                        if mode == 'zip' and target.is_file() != (mm[1] == 'true'):
-                            self.diverge('zip-safe decision of Package.install', self._tree_files(tree), target.is_file(), mm[1])
-                        # idempotent re-install must keep the content
-                        again = self._tokens_of(pkg.install(target).components)
-                    except Exception as e:  # pylint: disable=broad-except
-                        self.violate(f'{mode}-based package of {manifest} could not be created/installed/loaded: {type(e).__name__}: {e}', w,
-                                     f'package-{mode}-raises-{type(e).__name__}')
-                        continue
-                    finally:
-                        sys.path[:] = [p for p in sys.path if not str(p).startswith(str(base))]
-                        for name in set(sys.modules) - mods0:
-                            if name.split('.')[0].startswith('c18p') or name == '__4ml__':
-                                del sys.modules[name]
-                        importlib.invalidate_caches()
-                    if not self._manifest_equal(manifest, pkg.manifest) or not self._manifest_equal(manifest, installed):
-                        self.violate(f'{mode}-based package manifest {manifest} reads back as {tuple(pkg.manifest)} / installed {tuple(installed)}', w,
-                                     f'package-{mode}-manifest')
-                    if not self._tokens_match(got, tokens) or not self._tokens_match(again, tokens):
-                        self.violate(f'{mode}-based package of {manifest} (modules {margs[3]}) installs components {got}, written {tokens}', w,
-                                     f'package-{mode}-components')
-                    if (artifact.package, dict(artifact.modules)) != (margs[2], margs[3]):
-                        self.violate(f'artifact of {manifest} has package/modules {artifact.package}/{dict(artifact.modules)}', w, f'package-{mode}-artifact')
+                              nontrivial=True, sample={'mode': mode, 'files': self._tree_files(tree), 'manifest': f'{margs[0]}-{margs[1]}', 'modules': margs[3]} if i < 2 else None)
+                    for what, sig in self._package_case(base / str(i), tree, margs, tokens, mode, mm):
+                        self.violate(what, w, sig)
         finally:
             sys.path[:] = path0
             shutil.rmtree(base, ignore_errors=True)
+
+    def _replay_package(self, w):
+        base = pathlib.Path(tempfile.mkdtemp(prefix='verif-c18-r-'))
+        path0 = list(sys.path)
+        try:
+            for what, sig in self._package_case(base, w['tree'], w['manifest'], w['tokens'], w['mode']):
+                return fw.Violation(what, w, sig)
+            return None
+        finally:
+            sys.path[:] = path0
+            shutil.rmtree(base, ignore_errors=True)
+
+    def _shrink_keys(self, w):
+        """Greedy: drop keys of a failing listing witness while it still fails -> the Violation of the smallest one."""
+        best = self._replay_keys(w)
+        keys = list(w['keys'])
+        i = 0
+        while best is not None and i < len(keys):
+            cand = dict(w, keys=keys[:i] + keys[i + 1:])
+            v = self._replay_keys(cand)
+            if v is not None:
+                keys, best = cand['keys'], v
+            else:
+                i += 1
+        return best if best is not None else fw.Violation(f'Listing({w["keys"]}) is not the sorted duplicate-free key set', w,
+                                                         'listing-generation' if w['kind'] == 'listing' else 'listing-release')
+
+    def _replay_keys(self, w):
+        """Key / listing witnesses: the oracles of `_genkeys`, `_listings`, `_versions`, `_level_keys` on one input."""
+        from forml.io import asset
+
+        K, R, L = asset.Generation.Key, asset.Release.Key, asset.Level.Listing
+        kind = w['kind']
+        if kind == 'genkey':
+            t = w['text']
+            try:
+                k = K(t)
+                impl = ['ok', int(k), int(k.next)]
+            except K.Invalid as e:
+                impl = ['error', 'not-integer' if 'not an integer' in str(e) else 'not-natural']
+            except Exception as e:  # pylint: disable=broad-except
+                impl = ['error', type(e).__name__]
+            v = self._oracle_genkey(t, impl)
+            return fw.Violation(v[0], w, v[1]) if v else None
+        if kind == 'genkey-int':
+            n = w['n']
+            try:
+                k = K(n)
+                ok = int(k) == n and int(K(k)) == n and int(K(str(k))) == n and int(k.next) == n + 1 and n >= 1
+            except K.Invalid:
+                ok = n < 1
+            return None if ok else fw.Violation(f'Generation.Key({n}) is not the natural number {n} (or was accepted below one)', w, 'genkey-int')
+        if kind == 'listing':
+            s = w['keys']
+            lst = L(K(i) for i in s)
+            impl, spec = [int(k) for k in lst], sorted(set(s))
+            try:
+                last = int(lst.last)
+            except L.Empty:
+                last = 'Empty'
+            if impl != spec or last != (spec[-1] if spec else 'Empty') or (spec and int(lst.last.next) in s):
+                return fw.Violation(f'Listing({s}) = {impl}, last = {last}', w, 'listing-generation')
+            return None
+        if kind == 'vlisting':
+            texts = w['keys']
+            lst = L(R(t) for t in texts)
+            impl, spec = [pep440_key(str(k)) for k in lst], sorted({pep440_key(t) for t in texts})
+            if impl != spec or (spec and pep440_key(str(lst.last)) != spec[-1]):
+                return fw.Violation(f'Listing({texts}) = {[str(k) for k in lst]}', w, 'listing-release')
+            return None
+        if kind == 'relkey':
+            t = w['text']
+            try:
+                accepted = R(t) is not None
+            except R.Invalid:
+                accepted = False
+            except Exception as e:  # pylint: disable=broad-except
+                return fw.Violation(f'Release.Key({t!r}) raised {e!r}', w, 'release-key-acceptance')
+            if accepted != (pep440_key(t) is not None):
+                return fw.Violation(f'Release.Key({t!r}) {"accepted" if accepted else "rejected"} against PEP 440', w, 'release-key-acceptance')
+            return None
+        if kind == 'relkey-str':
+            k = R(w['text'])
+            if not (R(str(k)) == k and pep440_key(str(k)) == pep440_key(w['text'])):
+                return fw.Violation(f'Release.Key({w["text"]!r}) != Release.Key(str(it)) = {str(k)!r}', w, 'release-key-str')
+            return None
+        if kind == 'vcmp':
+            a, b = R(w['a']), R(w['b'])
+            impl = 'lt' if a < b else 'gt' if a > b else 'eq' if a == b else 'incomparable'
+            ka, kb = pep440_key(w['a']), pep440_key(w['b'])
+            spec = 'lt' if ka < kb else 'gt' if ka > kb else 'eq'
+            if impl != spec or (impl == 'eq' and hash(a) != hash(b)):
+                return fw.Violation(f'Release.Key({w["a"]!r}) vs Release.Key({w["b"]!r}): {impl}, PEP 440 order says {spec}', w, 'release-key-order')
+            return None
+        if kind == 'level-key' and 'content' in w:
+            for what, sig in self._level_key_case(w['content']):
+                return fw.Violation(what, w, sig)
+            return None
+        return None
 
     # ---- framework hooks ----------------------------------------------------------------------------------
     def _selfcheck(self):
@@ -1046,6 +1213,10 @@ class C18(fw.Check):
         self._versions()
         self._manifests()
         self._packages()
+        drift = self.extra.get('mechanism_drift', {})
+        self.extra['mechanism_drift'] = drift  # always present in the evidence; empty = the model mirrors the mechanism
+        for what, d in drift.items():
+            self.notes.append(f'mechanism drift (no alarm): {what}: {d["count"]} case(s), first {json.dumps(d["first"], default=str)[:300]}')
 
     def search(self, reason):
         """Widen around diverging tag cases: mutate their strings, run the oracle on the real code."""
@@ -1061,6 +1232,8 @@ class C18(fw.Check):
                     s[self.rng.randrange(len(s))] = ord(self.rng.choice(self.STR_ALPHABET))
                 else:
                     cand = dict(self._gen_tag(), ordinal=cand['ordinal'])
+                    if cand['train_ts'] is None:
+                        cand['train_ts'] = self._gen_ts()  # an ordinal exists only on a triggered training mode
                 tried += 1
                 v = self._oracle_tag(cand, self._impl_tag(cand, False))
                 if v:
@@ -1076,7 +1249,9 @@ class C18(fw.Check):
             return fw.Violation(v[0], w, v[1]) if v else None
         if kind == 'manifest':
             return self._replay_manifest(w)
-        return None
+        if kind == 'package':
+            return self._replay_package(w)
+        return self._replay_keys(w)
 
 
 if __name__ == '__main__':
